@@ -12,6 +12,8 @@ import (
 type CSeq struct {
 	Seq    int
 	Method string
+	// the value as received ("007   INVITE"): written back unchanged, a decoded CSeq is relayed as it came
+	text string
 }
 
 func ParseCSeq(s string) (*CSeq, error) {
@@ -21,12 +23,15 @@ func ParseCSeq(s string) (*CSeq, error) {
 		if err != nil {
 			return nil, err
 		}
-		return &CSeq{Seq: seq, Method: fields[1]}, nil
+		return &CSeq{Seq: seq, Method: fields[1], text: s}, nil
 	}
 	return nil, errors.New("malformatted CSeq header")
 }
 
 func (cs *CSeq) Write(writer io.Writer) (int, error) {
+	if cs.text != "" {
+		return fmt.Fprint(writer, cs.text)
+	}
 	return fmt.Fprintf(writer, "%d %s", cs.Seq, cs.Method)
 }
 
